@@ -89,6 +89,9 @@ def run(ctx):
     inputs += LI.long_runs(thorough)                # tokens and runs beyond the window, thousands of line feeds
     files = vclgen.repo_vcl_files(V.REPO)
     inputs += [("file:" + p, d) for p, d in files]
+    inputs += LI.line_endings(files)                # every repository file with CRLF / CR / mixed line ends
+    inputs += LI.nesting(thorough)                  # nesting depth 1 .. 1500 of every recursive construct, closed / open / over-closed
+    inputs += LI.error_positions(rng, files, thorough)   # one error injected at positions spread over the longest files, LF and CRLF
     docs = LI.docs_blocks(V.REPO)
     inputs += docs if thorough else docs[:60]
     for kwd, ty in reference_keywords():
